@@ -20,6 +20,8 @@ func main() {
 		cmdCheck(os.Args[2:])
 	case "selftest":
 		cmdSelftest(os.Args[2:])
+	case "anchortest":
+		cmdAnchorTest(os.Args[2:])
 	case "replay":
 		cmdReplay(os.Args[2:])
 	default:
@@ -152,6 +154,68 @@ func cmdFunc(args []string) {
 		}
 	}
 	if bad > 0 {
+		os.Exit(1)
+	}
+}
+
+// hv anchortest <rel>... : for every ghost statement of the form
+// "ghost at call F#k before: assert ..." the call is skipped (as if the line had
+// been deleted from the source) and the function is verified again: some
+// obligation other than the now unreachable anchor has to fail, otherwise the
+// contract would not notice that the call went missing (a must-happen effect
+// stated only as an assertion at the call needs a matching ensures).
+func cmdAnchorTest(args []string) {
+	fs := flag.NewFlagSet("anchortest", flag.ExitOnError)
+	repo := fs.String("repo", "/repo", "")
+	verif := fs.String("verif", "/verif", "")
+	tmo := fs.Int("t", 8, "solver timeout (s)")
+	fs.Parse(args)
+	holes := 0
+	for _, rel := range fs.Args() {
+		w, err := LoadWorld(*repo, *verif, []string{rel}, nil)
+		if err != nil {
+			fmt.Fprintln(os.Stderr, err)
+			os.Exit(2)
+		}
+		cf := w.contracts[rel]
+		for _, k := range sortedKeys(cf.Funcs) {
+			c := cf.Funcs[k]
+			if c.Abstract || c.Trusted || c.Inline {
+				continue
+			}
+			seen := map[string]bool{}
+			for _, g := range c.Ghosts {
+				if !strings.HasPrefix(g.Anchor, "call ") || !strings.Contains(g.Anchor, "#") || seen[g.Anchor] {
+					continue
+				}
+				seen[g.Anchor] = true
+				fn := w.findFunc(rel, k)
+				if fn == nil {
+					continue
+				}
+				skipCallAnchor = g.Anchor
+				rep := VerifyFunc(w, rel, c, fn)
+				skipCallAnchor = ""
+				Discharge(rep.Obls, *tmo, false, 16)
+				var failed []string
+				for _, s := range Summarize(rep.Obls) {
+					if len(s.Failed) > 0 && s.Kind != "reach" && !strings.Contains(s.Label, "@") {
+						failed = append(failed, s.Name[strings.Index(s.Name, "#")+1:])
+					}
+				}
+				if len(failed) == 0 {
+					holes++
+					fmt.Printf("HOLE   %s.%s: deleting %q goes unnoticed\n", rel, k, g.Anchor)
+				} else {
+					if len(failed) > 2 {
+						failed = failed[:2]
+					}
+					fmt.Printf("ok     %s.%s: %q -> %s\n", rel, k, g.Anchor, strings.Join(failed, "; "))
+				}
+			}
+		}
+	}
+	if holes > 0 {
 		os.Exit(1)
 	}
 }
